@@ -1031,8 +1031,9 @@ def run(P, rep, tier):
     r0519(P, u, E, rep)
     from ..lib_c05b import r_fold_precision
     r_fold_precision(P, u, E, rep, U)
-    from ..lib_c05c import r0521
+    from ..lib_c05c import r0521, r0522
     r0521(P, u, E, rep)
+    r0522(P, u, E, rep)
 
 
 def _fact_holds(ctx, op, a, b):
@@ -3397,8 +3398,18 @@ def r0510(P, u, E, rep, copies=None):
                     % (form, 'its designated member' if des else 'the FIRST member')), where=where, facts={'path': ctx.trail})
             continue
         ok, msg, construct = True, '', 'selects-the-parsed-member'
-        if len(subs) != 1:
-            ok = False; construct = 'parse-count'; msg = 'a union initializer parses %d member initializers (expected exactly one)' % len(subs)
+        if des and len(subs) == len(des) > 1:
+            # `{.a = 1, .b = 2}`: every designator names a member of the union anew (C11 6.7.9p17); each value goes to the child of ITS member, the last
+            # designated member is the selected one (p19); R05.22 judges that such lists are accepted at all
+            m = des[-1][1]
+            if settle(it, mem) is not m:
+                ok = False; construct = 'designated-member-not-selected'; msg = 'after several `.m = v` in a union list the member designated LAST is not the selected member (init->mem)'
+            else:
+                for d_, s_ in zip(des, subs):
+                    if 'idx' not in d_[1].fields or _child_key(ctx, s_[2][2], it) != vkey(d_[1].fields['idx']):
+                        ok = False; construct = 'designated-member-child-mismatch'; msg = '`.m = v` in a union does not parse v into init->children[m->idx]'
+        elif len(subs) != 1:
+            ok = False; construct = 'parse-count'; msg = 'a union initializer parses %d member initializers for %d designator(s) (expected one per designator, exactly one without designator)' % (len(subs), len(des))
         else:
             k = _child_key(ctx, subs[0][2][2], it)
             if des:
